@@ -209,11 +209,19 @@ def _mk_at(cls):
             c.require(kv["time_constant"] > 0)
         if "tc_rise" in kv:
             c.require(kv["tc_rise"] > 0, kv["tc_decay"] > kv["tc_rise"])
-        cob_mode = c.choice("current_overbound", ["value", "none"])
-        sob_mode = c.choice("spike_overbound", ["value", "none"])
-        cob = c.real("current_overbound") if cob_mode == "value" else None
-        sob = c.bool("spike_overbound") if sob_mode == "value" else None
-        syn = new_syn(c, file, cls, step_time=dt, delay=delay, interp_tol=tol, current_overbound=cob, spike_overbound=sob, **kv)
+        cob_mode = c.choice("current_overbound", ["value", "none", "constructor_defaults"])
+        if cob_mode == "constructor_defaults":
+            # documented defaults: zero interpolation tolerance, out-of-bounds reads give 0.0 nA / no spike
+            from pyvc.sym import SV as _SV
+
+            sob_mode = "constructor_defaults"
+            tol, cob, sob = _SV(z3.RealVal(0)), _SV(z3.RealVal(0)), _SV(z3.BoolVal(False))
+            syn = new_syn(c, file, cls, step_time=dt, delay=delay, **kv)
+        else:
+            sob_mode = c.choice("spike_overbound", ["value", "none"])
+            cob = c.real("current_overbound") if cob_mode == "value" else None
+            sob = c.bool("spike_overbound") if sob_mode == "value" else None
+            syn = new_syn(c, file, cls, step_time=dt, delay=delay, interp_tol=tol, current_overbound=cob, spike_overbound=sob, **kv)
         calls = []
 
         def summary(interp, fi, args, kwargs):
